@@ -170,15 +170,25 @@ theorem placeholder_is_one_marked_name :
       [.single ['a'] 2, .single ['='] 0, .single "#{x.y}".toList (Gen.mark_NAME ||| Gen.mark_CUSTOM_1)] = true := by
   decide +kernel
 
-/-- known finding F-C20-1: the end marker is compared as the literal `"<END>"` (`mybaitis.py:34,41`) while the driver
-feeds `"<end>"`, so a `#` comment at the very end of the text is rejected by the plug-in and accepted by the base lexer -/
-theorem witness_end_marker :
-    (match Gen.mybatis.lex "a #".toList with | .error .lexical => true | _ => false) = true ∧ lexesTo (Gen.base.lex "a #".toList) [.single ['a'] 2] = true := by
+/-- repaired (fix 025646c, was finding F-C20-1): a `#` comment that runs to the end of the text is handled as by the base lexer -/
+theorem hash_at_end_as_base :
+    lexesTo (Gen.mybatis.lex "a #".toList) [.single ['a'] 2] = true ∧ lexesTo (Gen.base.lex "a #".toList) [.single ['a'] 2] = true := by
   decide +kernel
 
-/-- known finding F-C20-2: `#` followed by a line break swallows the line break, so the next line is commented out -/
-theorem witness_hash_newline :
-    lexesTo (Gen.mybatis.lex "#\nb".toList) [] = true ∧ lexesTo (Gen.base.lex "#\nb".toList) [.single ['b'] 2] = true := by
+/-- repaired (fix 025646c, was finding F-C20-2): `#` directly followed by a line break comments out nothing of the next line -/
+theorem hash_newline_as_base :
+    lexesTo (Gen.mybatis.lex "#\nb".toList) [.single ['b'] 2] = true ∧ lexesTo (Gen.base.lex "#\nb".toList) [.single ['b'] 2] = true := by
+  decide +kernel
+
+/-- the only intercept that leaves the custom states without emitting a placeholder re-labels the state as the base lexer's
+line-comment state and hands the symbol to the base machine -/
+theorem redirect_is_line_comment :
+    Gen.mbIntercepts.all (fun i => match i.redirect with | some s => i.status == .CUSTOM_1 && s == .IN_EXPLAIN_1 && i.ch == .any | none => true) = true := by
+  decide
+
+/-- an unterminated placeholder is rejected, not turned into a token -/
+theorem unterminated_placeholder_rejected :
+    (match Gen.mybatis.lex "a #{x".toList with | .error .lexical => true | _ => false) = true := by
   decide +kernel
 
 end C20
